@@ -3,6 +3,8 @@
   Property theorems only; helper lemmas live in HL/Lemmas/Text.lean.
 -/
 import HL.Lemmas.Text
+import HL.Generated.Expect.Text
+import HL.Generated.Expect.Dispatch
 namespace HL.Props.C01
 open HL.Text HL.Ref HL.Lemmas.Text
 
